@@ -659,7 +659,7 @@ viewer_cases = st.fixed_dictionaries({"viewer": st.sampled_from(["histogram", "p
 
 
 def checks(tier):
-    n = {"quick": (320, 480, 16, 320), "thorough": (8000, 12000, 320, 8000)}.get(tier, (10, 10, 2, 10))
+    n = {"quick": (320, 480, 16, 320), "thorough": (3200, 4800, 160, 3200)}.get(tier, (10, 10, 2, 10))
     return [
         Check("core_histories", fn_history, strategy=core_cases(), examples=n[0]),
         Check("link_histories", fn_history, strategy=core_cases(ops=link_op), examples=n[3]),
